@@ -92,6 +92,7 @@ def run(res, drv, tier, seed):
                           {'request': q, 'observed': iv, 'model': mv, 'stream': 'C07.translator'})
     # B. the property's clauses on the implementation
     clauses(res, C, pts, bis, tier)
+    session(res, C, r, tier)
 
 
 def clauses(res, C, pts, bis, tier, stop_first=True):
@@ -195,6 +196,34 @@ def clauses(res, C, pts, bis, tier, stop_first=True):
                  {'request': {'fn': 'cdp_rho', 'args': [[1.0, ch[i]], [1.0, ch[i + 1]]]}, 'observed': [vals[i], vals[i + 1]]})
 
 
+def session(res, C, r, tier):
+    """the three conversions are functions of their arguments only: one accounting session in which the same number pair goes to
+    different conversions in turn (a level used as eps, then as rho) must give, call by call, the value a fresh computation gives:
+    the budget for (x, d) must still satisfy cdp_delta(cdp_rho(x, d), x) <= d after cdp_eps(x, d) was asked, and vice versa"""
+    levels = [0.1, 0.5, 1.0, 2.0, 7.0] + [round(math.exp(r.uniform(math.log(0.05), math.log(20))), 3) for _ in range(3 if tier == 'quick' else 20)]
+    ds = [1e-9, 1e-6, 1e-3]
+    for x in levels:
+        for d in ds:
+            order = r.sample(['eps', 'rho', 'delta'], 3)
+            got = {}
+            for fn in order:
+                got[fn] = C.cdp_eps(x, d) if fn == 'eps' else (C.cdp_rho(x, d) if fn == 'rho' else C.cdp_delta(x, d if d > 1e-3 else x))
+            res.count('session: one number pair sent to several conversions')
+            res.case({'session': [x, d], 'order': order}, True)
+            rho = got['rho']
+            implied = C.cdp_delta(rho, x)
+            if not (rho >= 0 and implied <= d * (1 + 1e-9)):
+                res.violation('failing-input', f'in one session (calls in the order {order} on the pair ({x}, {d})): cdp_rho({x},{d}) = {rho} implies delta {implied} > target {d}',
+                              {'request': {'session': [x, d], 'order': order}, 'observed': got}, key='cdp_rho:unsound')
+                return
+            e = got['eps']
+            back = C.cdp_delta(x, e)
+            if not (e >= 0 and back <= d * (1 + 1e-6) + 1e-300):
+                res.violation('failing-input', f'in one session (calls in the order {order} on the pair ({x}, {d})): cdp_eps({x},{d}) = {e} implies delta {back} > target {d}',
+                              {'request': {'session': [x, d], 'order': order}, 'observed': got}, key='cdp_eps:unsound')
+                return
+
+
 def search(res, tier, seed, broken):
     from mechanisms import cdp2adp as C
     r = rng(seed + 31, 'C07-search')
@@ -203,6 +232,8 @@ def search(res, tier, seed, broken):
     bis = [(math.exp(r.uniform(math.log(1e-6), math.log(1e2))), math.exp(r.uniform(math.log(1e-3), math.log(1e2))),
             math.exp(r.uniform(math.log(1e-15), math.log(0.5)))) for _ in range(60)]
     clauses(res, C, pts, bis, tier)
+    if not any(v['kind'] == 'failing-input' for v in res.violations):
+        session(res, C, r, tier)
 
 
 def replay(res, drv, rp):
